@@ -98,6 +98,89 @@ Theorem C10_parse : forall es fuel junk used pos,
 Proof. exact read_loop_parse. Qed.
 Print Assumptions C10_parse.
 
+(* ---------- keys that are not well-formed Unicode strs (or not strs at all) ----------
+   Vocabulary: a call carries a Python key `pykey` = KStr code-points | KNoEncode (hashable non-str) | KUnhashable;
+   key_bytes k = the strict UTF-8 encoding, or the exception write_value/read_value raise for k before any statement
+   that changes the handle or the file; lower o = the call with its encoded key, or that exception;
+   pstep / prun = one call / a history of calls where a refused call raises and the history goes on;
+   accepted ops = the calls that were not refused; outcomes ops = what each call raised (None = nothing). *)
+
+(* WHICH keys are refused: exactly the unhashable ones (TypeError), the hashable non-strs (AttributeError) and the
+   strs containing a surrogate code point U+D800..U+DFFF, at any position (UnicodeEncodeError, a ValueError);
+   every other str - any length, any mix of 1..4-byte code points - is accepted *)
+Theorem C10_refused_keys : forall k e, key_bytes k = Err e <->
+  (k = KUnhashable /\ e = TypeError) \/ (k = KNoEncode /\ e = AttributeError) \/
+  (exists s, k = KStr s /\ Exists surrogate s /\ e = ValueError).
+Proof. exact key_bytes_err. Qed.
+Print Assumptions C10_refused_keys.
+
+Theorem C10_wellformed_accepted : forall s, Forall (fun c => ~ surrogate c) s -> exists b, key_bytes (KStr s) = Ok b.
+Proof. exact utf8_ok. Qed.
+Print Assumptions C10_wellformed_accepted.
+
+(* two accepted strs with the same stored bytes are the same str: the mapping keyed by encoded bytes (model) is the
+   mapping keyed by str (Python), and a key read back by the strict decoder is the key that was written *)
+Theorem C10_utf8_injective : forall s1 s2 b, utf8 s1 = Ok b -> utf8 s2 = Ok b -> s1 = s2.
+Proof. exact utf8_inj. Qed.
+Print Assumptions C10_utf8_injective.
+
+(* a refused call is the identity: in EVERY state (represented or not) it raises, performs no file effect and returns
+   the handle as it was; from a represented state the three read paths and a later reopen are therefore as before *)
+Theorem C10_refused_identity : forall isz w o e, lower o = Err e -> pstep isz w o = Ok (fst w, snd w, [], Some e).
+Proof. exact pstep_refused. Qed.
+Print Assumptions C10_refused_identity.
+
+Theorem C10_refused_keeps : forall isz pg, 8 <= isz -> 4 <= pg -> forall o e b h es,
+  Rep isz b h es -> lower o = Err e ->
+  pstep isz (Some b, h) o = Ok (Some b, h, [], Some e) /\
+  read_all b h = Ok es /\ read_all_from_file pg b = Ok es /\ (forall k v, In (k, v) es -> peek b h k = Ok v) /\
+  open_ isz (Some b) = Ok (h, []).
+Proof. exact refused_keeps. Qed.
+Print Assumptions C10_refused_keeps.
+
+(* a history with refused calls anywhere IS the history of its accepted calls (same file, handle and effect trace;
+   no size or well-formedness hypothesis), and dropping a refused call changes nothing *)
+Theorem C10_refused_transparent : forall isz ops,
+  prun isz ops = (do t <- run isz (accepted ops); Ok (t, outcomes ops)) /\
+  forall a o b e, ops = a ++ o :: b -> lower o = Err e -> accepted ops = accepted (a ++ b).
+Proof.
+  exact (fun isz ops => conj (prun_accepted isz ops)
+           (fun a o b e E H => eq_trans (f_equal accepted E) (accepted_refused a o b e H))).
+Qed.
+Print Assumptions C10_refused_transparent.
+
+(* C10_abs for callers' histories: whatever mix of accepted and refused calls, the three read paths return exactly
+   the dict of the accepted writes, and close + MmapedDict(path) rebuilds the same handle *)
+Theorem C10_abs_keys : forall isz pg, 8 <= isz -> 4 <= pg -> forall ops,
+  Forall wf_pop ops -> 8 + total (spec (accepted ops)) < 2147483648 ->
+  exists b h tr, prun isz ops = Ok (Some b, h, tr, outcomes ops) /\ run isz (accepted ops) = Ok (Some b, h, tr) /\
+    Rep isz b h (spec (accepted ops)) /\
+    read_all b h = Ok (spec (accepted ops)) /\ read_all_from_file pg b = Ok (spec (accepted ops)) /\
+    (forall k v, In (k, v) (spec (accepted ops)) -> peek b h k = Ok v) /\
+    open_ isz (Some b) = Ok (h, []) /\ NoDup (map fst (spec (accepted ops))).
+Proof. exact keys_main. Qed.
+Print Assumptions C10_abs_keys.
+
+(* non-vacuity: 'a', then os.fsdecode(b'caf\xe9') = 'caf\udce9' (refused), a bytes key (refused), a list key
+   (refused), a reopen, then 'caf\xe9' (accepted); the file holds exactly the two accepted keys *)
+Definition ex_pops : list pop :=
+  [PWrite (KStr [97]) [1;0;0;0;0;0;248;127] zero8; PWrite (KStr [99;97;102;56553]) zero8 zero8;
+   PReadV KNoEncode; PWrite KUnhashable zero8 zero8; PReopen; PReadV (KStr [56320; 97]);
+   PWrite (KStr [99;97;102;233]) [9;9;9;9;9;9;9;9] zero8].
+Example C10_keys_example :
+  Forall wf_pop ex_pops /\
+  outcomes ex_pops = [None; Some ValueError; Some AttributeError; Some TypeError; None; Some ValueError; None] /\
+  spec (accepted ex_pops) = [([97], ([1;0;0;0;0;0;248;127], zero8)); ([99;97;102;195;169], ([9;9;9;9;9;9;9;9], zero8))] /\
+  match prun 32 ex_pops with
+  | Ok (Some b, h, _, x) => read_all b h = Ok (spec (accepted ex_pops)) /\
+                            read_all_from_file 4096 b = Ok (spec (accepted ex_pops)) /\ x = outcomes ex_pops
+  | _ => False
+  end.
+Proof.
+  split; [repeat constructor|]. split; [vm_compute; reflexivity|]. split; [vm_compute; reflexivity|].
+  vm_compute. repeat split; reflexivity.
+Qed.
+
 (* non-vacuity: a history with an overwrite, a 4-byte-UTF-8 key, a reopen, a read_value of a new key, NaN-payload and
    -0.0 bit patterns, at initial size 8 (three doublings); hypotheses hold and the file reads back as the dict *)
 Definition ex_ops : list op :=
